@@ -1,7 +1,9 @@
 from __future__ import annotations
 
 import logging
+import os
 import pathlib
+import shutil
 import sys
 from collections import defaultdict
 from collections.abc import Iterable
@@ -132,8 +134,20 @@ class SourceFile:
     def rewrite(self):
         new_code = self.new_code()
 
-        with open(self.filename, "bw") as code:
-            code.write(new_code.encode())
+        # The new content is written into a temporary file which replaces the
+        # original file in one step.  An interrupted or failed write (crash,
+        # full disk) does not leave a truncated test file behind.
+        target = pathlib.Path(os.path.realpath(self.filename))
+        tmp_file = target.with_name(f".{target.name}.inline-snapshot.tmp")
+        try:
+            with open(tmp_file, "bw") as code:
+                code.write(new_code.encode())
+            shutil.copymode(target, tmp_file)
+            os.replace(tmp_file, target)
+        except BaseException:
+            if tmp_file.exists():
+                tmp_file.unlink()
+            raise
 
     def virtual_write(self):
         self.source = self.new_code()
